@@ -2,6 +2,7 @@
 from __future__ import annotations
 
 import copy
+import gc
 import time
 
 from ..core import canonical
@@ -20,6 +21,16 @@ class CheckBase:
 
     def warmup(self) -> None:
         pass
+
+    @staticmethod
+    def quiesce() -> None:
+        """Cyclic garbage collection runs at allocation-count thresholds,
+        i.e. at history-dependent instants, and runs finalizers
+        (ModuleLoader.__del__) wherever it happens to strike.  The
+        simulator owns that too: automatic collection is off, and a full
+        collection happens here, between runs."""
+        gc.disable()
+        gc.collect()
 
     def gen(self, ch, tier: str) -> dict:
         raise NotImplementedError
